@@ -33,6 +33,7 @@ class Sched:
         self.stall = 8.0
         self.hung = False
         self.deadlocked = False
+        self.lockops = []       # (thread, 'a' | 'r', lock): outermost acquisitions / final releases of instrumented locks, in order
 
     # ---- called by worker threads
     def _yield(self, tid, where):
@@ -186,6 +187,7 @@ class ILock:
                         raise Deadlock('all threads blocked')
             self.owner = me
             self.count = 1
+            s.lockops.append((me, 'a', id(self)))     # (outermost acquisition: what the lock-order check looks at)
         return True
 
     def release(self):
@@ -193,6 +195,7 @@ class ILock:
         with s.cv:
             self.count -= 1
             if self.count <= 0:
+                s.lockops.append((self.owner, 'r', id(self)))
                 self.owner = None
                 self.count = 0
                 for t, l in list(s.blocked.items()):
